@@ -22,14 +22,14 @@ import rules_struct
 
 PROPS = {
     "C02": {
-        "rules": [rules_struct.difatcap("C02"), rules_struct.stalechain("C02"), rules_mode.strictlist("C02"), rules_struct.selflink("C02"), rules_wt.run, rules_follow.make("R-HDR", "C02"), rules_follow.make("R-INIT", "C02"), rules_struct.freshid, rules_struct.hdrcount("C02"), rules_struct.hdrv3("C02"), rules_struct.parenttype("C02"), rules_entry.gstore, rules_struct.namelen("C02"), rules_layout.run("C02"), rules_entry.ctorvalues("C02"), rules_wt.reverse("C02"), rules_struct.fmtconst("C02"), rules_follow.make("R-MARK", "C02"), rules_follow.make("R-CTOR", "C02"), rules_struct.wholetable("C02")],
+        "rules": [rules_own.make("C02"), rules_struct.difatcap("C02"), rules_struct.stalechain("C02"), rules_mode.strictlist("C02"), rules_struct.selflink("C02"), rules_wt.run, rules_follow.make("R-HDR", "C02"), rules_follow.make("R-INIT", "C02"), rules_struct.freshid, rules_struct.hdrcount("C02"), rules_struct.hdrv3("C02"), rules_struct.parenttype("C02"), rules_entry.gstore, rules_struct.namelen("C02"), rules_layout.run("C02"), rules_entry.ctorvalues("C02"), rules_wt.reverse("C02"), rules_struct.fmtconst("C02"), rules_follow.make("R-MARK", "C02"), rules_follow.make("R-CTOR", "C02"), rules_struct.wholetable("C02")],
         "explanation": "R-WT: every store site to an in-memory mirror of on-disk state (cached FAT/DIFAT/DIFAT-sector list, MiniFAT and its start sector, directory entry table, sector count; enumerated automatically from MIR: &mut borrows of mirror fields, stores through dir_entry_mut, direct field stores) is paired in the same function with a file write of the same datum "
                        "(same value by provenance, or write_dir_entry/write_to/seek_within_dir_entry+write_le_u32 of the same entry id at the field's offset), either dominating the store or on every Ok path after it; six listed exceptions with reasons. "
                        "R-HDR: header counters (words 40/44/60/64/68/72) are rewritten in the same function that changes the chain they count, on every Ok path. R-INIT: every sector handed out by allocate_sector - reused from the free list or appended - is reset with the caller's initialiser before it is returned (a directory sector recycled without SectorInit::Dir would reopen as garbage entries).",
         "not_decided": "that the bytes reopen to the same state; that the right value is written; crash points inside an operation",
     },
     "C03": {
-        "rules": [rules_struct.difatcap("C03"), rules_follow.make("R-MARK"), rules_follow.make("R-HDR", "C03"), rules_follow.make("R-BLANK"), rules_follow.make("R-INIT", "C03"), rules_own.make("C03"), rules_entry.gstore, rules_layout.run("C03"), rules_struct.cutoff, rules_struct.unit, rules_struct.freshid, rules_follow.make("R-FREEOLD", "C03"), rules_struct.hdrcount("C03"), rules_struct.hdrv3("C03"), rules_struct.parenttype("C03"), rules_struct.initkind("C03"), rules_struct.linkkeep("C03"), rules_struct.unlink("C03"), rules_struct.blankown("C03"), rules_struct.killread("C03"), rules_struct.ceil("C03"), rules_entry.slotreset("C03"), rules_guard.make("R-BEGINGUARD"), rules_follow.make("R-FREEREBUILD", "C03"), rules_struct.detach("C03"), rules_struct.namelen("C03"), rules_struct.freebeforeremove("C03"), rules_units.units("C03"), rules_struct.handon("C03"), rules_struct.slotid("C03"), rules_struct.keepcount("C03"), rules_follow.make("R-FREEALL", "C03"), rules_follow.make("R-CUTTAIL", "C03"), rules_struct.stalechain("C03"), rules_struct.allblack("C03"), rules_struct.selflink("C03"), rules_entry.ctorvalues("C03"), rules_struct.fmtconst("C03"), rules_struct.fold("C03"), rules_struct.wholetable("C03"), rules_struct.handlekind("C03"), rules_wt.reverse("C03")],
+        "rules": [rules_struct.linkend("C03"), rules_struct.difatcap("C03"), rules_follow.make("R-MARK"), rules_follow.make("R-HDR", "C03"), rules_follow.make("R-BLANK"), rules_follow.make("R-INIT", "C03"), rules_own.make("C03"), rules_entry.gstore, rules_layout.run("C03"), rules_struct.cutoff, rules_struct.unit, rules_struct.freshid, rules_follow.make("R-FREEOLD", "C03"), rules_struct.hdrcount("C03"), rules_struct.hdrv3("C03"), rules_struct.parenttype("C03"), rules_struct.initkind("C03"), rules_struct.linkkeep("C03"), rules_struct.unlink("C03"), rules_struct.blankown("C03"), rules_struct.killread("C03"), rules_struct.ceil("C03"), rules_entry.slotreset("C03"), rules_guard.make("R-BEGINGUARD"), rules_follow.make("R-FREEREBUILD", "C03"), rules_struct.detach("C03"), rules_struct.namelen("C03"), rules_struct.freebeforeremove("C03"), rules_units.units("C03"), rules_struct.handon("C03"), rules_struct.slotid("C03"), rules_struct.keepcount("C03"), rules_follow.make("R-FREEALL", "C03"), rules_follow.make("R-CUTTAIL", "C03"), rules_struct.stalechain("C03"), rules_struct.allblack("C03"), rules_struct.selflink("C03"), rules_entry.ctorvalues("C03"), rules_struct.fmtconst("C03"), rules_struct.fold("C03"), rules_struct.wholetable("C03"), rules_struct.handlekind("C03"), rules_wt.reverse("C03")],
         "explanation": "Format-maintenance obligations visible as code shape: R-MARK (FAT/DIFAT sectors marked as such; allocated cell END_OF_CHAIN before use; freed cells FREE), R-HDR (header counts follow the chains), "
                        "R-BLANK (a removed entry's slot is overwritten with DirEntry::unallocated() on disk), R-GSTORE (no CLSID/timestamps on streams: every store to those fields is dominated by a test excluding ObjType::Stream; only storages are stamped at creation), R-OWN (allocation protocol: who may change FAT cells / free lists / initialise sectors), R-LAYOUT (symbolic walk of DirEntry::read_from/write_to and Header::read_from/write_to in control-flow order: same widths, counts and fields at the same offsets, totals 128 and 512, in-place patch offsets 68/72/76 and 40/44/60/64/68/72/76 equal the derived field offsets).",
         "not_decided": "single ownership of sectors, no orphans, chain length vs stream size, sibling-tree order and colouring: invariants over the contents of FAT and directory across histories",
@@ -41,7 +41,7 @@ PROPS = {
         "not_decided": "that the bytes of other streams are untouched (sector ownership is value-level); validity of a handle after its own stream is removed",
     },
     "C05": {
-        "rules": [rules_sink.sink("read"), rules_sink.qual_rule("read"), rules_sink.term("read"), rules_sink.alloc("read"), rules_guard.make("R-INV"), rules_own.make("C05"), rules_follow.make("R-CTOR", "C05"), rules_struct.chainpos("C05"), rules_lock.reacquire("C05"), rules_units.units("C05"), rules_struct.wholetable("C05")],
+        "rules": [rules_sink.sink("read"), rules_sink.qual_rule("read"), rules_sink.term("read"), rules_sink.alloc("read"), rules_guard.make("R-INV"), rules_own.make("C05"), rules_follow.make("R-CTOR", "C05"), rules_struct.chainpos("C05"), rules_lock.reacquire("C05"), rules_struct.nochild("C05"), rules_units.units("C05"), rules_struct.wholetable("C05")],
         "explanation": "On the read surface (call-graph closure of the read-only API; the write-back path behind the dirty-marker call is cut because the marker is only ever set by Stream::write): "
                        "R-TERM - every natural loop has a termination certificate (finite std iterator, shrinking collection, grow-to-bound, seen-set with refusing exit, checked chain walk with first-sector test, or a named acyclicity invariant); "
                        "R-SINK - every panic-capable site (MIR Assert terminators for bounds/overflow/division, Index/IndexMut calls, unwrap/expect, panic and assertion expansions) is discharged by interval evaluation over MIR operands, by a dominating guard, by an id qualifier, or by an audited table entry whose required guard atoms still dominate it; "
@@ -78,9 +78,9 @@ PROPS = {
         "not_decided": "bit-for-bit equality of state (follows from 'no effect ran' only given that effect-free code is effect-free, which the effect closure establishes for this crate); partial effects of the compound operations create_storage_all/remove_storage_all when a later step is refused by a callee",
     },
     "C11": {
-        "rules": [rules_sink.sink("mutation"), rules_sink.qual_rule("mutation"), rules_sink.term("mutation"), rules_sink.alloc("mutation"), rules_guard.make("R-INV"), rules_own.make("C11"), rules_follow.make("R-CTOR", "C11"), rules_struct.freelist, rules_entry.slotreset("C11"), rules_struct.chainpos("C11"), rules_lock.reacquire("C11"), rules_struct.nameinv("C11"), rules_struct.lenbound("C11"), rules_struct.detach("C11"), rules_units.units("C11"), rules_struct.parenttype("C11"), rules_struct.wholetable("C11"), rules_struct.handlekind("C11")],
+        "rules": [rules_sink.sink("mutation"), rules_sink.qual_rule("mutation"), rules_sink.term("mutation"), rules_sink.alloc("mutation"), rules_guard.make("R-INV"), rules_own.make("C11"), rules_follow.make("R-CTOR", "C11"), rules_struct.freelist, rules_entry.slotreset("C11"), rules_struct.chainpos("C11"), rules_lock.reacquire("C11"), rules_struct.nameinv("C11"), rules_struct.lenbound("C11"), rules_struct.nochild("C11"), rules_struct.detach("C11"), rules_units.units("C11"), rules_struct.parenttype("C11"), rules_struct.wholetable("C11"), rules_struct.handlekind("C11")],
         "explanation": "Same engine as C05 on the mutation surface (every public method, dev profile so that debug assertions and overflow checks count as panics): R-TERM, R-SINK, R-QUAL, R-ALLOC, R-INV, R-CTOR, R-OWN. "
-                       "Fields no validator covers (DirEntry.start_sector / stream_len, special FAT values) must reach index sites and raw walks only through the checked accessors or a dominating chain validation; the audit of the sink table found and led to repairs of five panics on damaged-but-accepted files, and records two more as known findings.",
+                       "Fields no validator covers (DirEntry.start_sector / stream_len, special FAT values) must reach index sites and raw walks only through the checked accessors or a dominating chain validation; the audit of the sink table found and led to repairs of five panics on damaged-but-accepted files, and records one more as a known finding (two handles on one stream).",
         "not_decided": "as C05; behaviour of several handles on one stream (recorded as a known finding); resource exhaustion by caller-chosen sizes (set_len near u64::MAX)",
         "assumptions": ["audited sink entries (rules/sinks.json) record a human judgement made once by reading the code; the analysis re-checks only that their required guards still dominate the sink"],
     },
@@ -91,20 +91,20 @@ PROPS = {
         "not_decided": "that the bytes returned equal the fault-free run (values); behaviour of std's read_exact/read_to_end themselves",
     },
     "C13": {
-        "rules": [rules_lock.reacquire("C13"), rules_io.errdisc(["io_write", "io_flush", "io_seek"], "write"), rules_io.dirty, rules_io.flushreach, rules_follow.make("R-WBENTRY", "C13"), rules_wt.order, rules_follow.make("R-RETRY", "C13"), rules_follow.make("R-SETTER", "C13"), rules_entry.closurestore("C13"), rules_struct.seekend("C13")],
+        "rules": [rules_struct.predwalk("C13"), rules_lock.reacquire("C13"), rules_io.errdisc(["io_write", "io_flush", "io_seek"], "write"), rules_io.dirty, rules_io.flushreach, rules_follow.make("R-WBENTRY", "C13"), rules_wt.order, rules_follow.make("R-RETRY", "C13"), rules_follow.make("R-SETTER", "C13"), rules_entry.closurestore("C13"), rules_struct.seekend("C13")],
         "explanation": "R-ERRDISC(write): no io::Result of a call with backend write/flush/seek effect is dropped (one listed exception: Drop for Stream). "
                        "R-DIRTY: typestate of the dirty marker Stream.flusher - on every path from the arm that took the marker to any return, either the ok successor of the write-back is passed or the marker is stored back; every Ok(n>0) path of Stream::write calls mark_modified. "
                        "R-FLUSHREACH: every Ok path of each link of the flush chain reaches <F as Write>::flush, and Stream::flush writes back first. R-WBENTRY: every Ok path of the flusher reaches write_data_to_stream, and every Ok path of write_data_to_stream / resize_stream rewrites the stream's directory entry (memory is updated before the file write, so only an unconditional rewrite lets a retried flush repair a failed one).",
         "not_decided": "no panic/hang after a failed write on half-updated state (C11's question); that the flushed bytes are the accepted bytes (values)",
     },
     "C15": {
-        "rules": [rules_guard.make("R-REUSE.consult"), rules_follow.make("R-REUSE"), rules_guard.make("R-CAP"), rules_follow.make("R-FREEOLD", "C15"), rules_own.make("C15"), rules_struct.killread("C15"), rules_mode.rawfield("C15"), rules_struct.linkkeep("C15"), rules_struct.ceil("C15"), rules_struct.dirlen("C15"), rules_guard.make("R-BEGINGUARD"), rules_follow.make("R-FREEREBUILD", "C15"), rules_struct.trimloop("C15"), rules_struct.freebeforeremove("C15"), rules_units.units("C15"), rules_follow.make("R-BLANK"), rules_struct.keepcount("C15"), rules_follow.make("R-FREEALL", "C15"), rules_follow.make("R-CUTTAIL", "C15"), rules_wt.reverse("C15")],
+        "rules": [rules_struct.linkend("C15"), rules_guard.make("R-REUSE.consult"), rules_follow.make("R-REUSE"), rules_guard.make("R-CAP"), rules_follow.make("R-FREEOLD", "C15"), rules_own.make("C15"), rules_struct.killread("C15"), rules_mode.rawfield("C15"), rules_struct.linkkeep("C15"), rules_struct.ceil("C15"), rules_struct.dirlen("C15"), rules_guard.make("R-BEGINGUARD"), rules_follow.make("R-FREEREBUILD", "C15"), rules_struct.trimloop("C15"), rules_struct.freebeforeremove("C15"), rules_units.units("C15"), rules_follow.make("R-BLANK"), rules_struct.keepcount("C15"), rules_follow.make("R-FREEALL", "C15"), rules_follow.make("R-CUTTAIL", "C15"), rules_wt.reverse("C15")],
         "explanation": "R-REUSE: (a) every append path of allocate_sector / allocate_mini_sector / allocate_dir_entry is dominated by the 'nothing free' outcome of the free-list query (guard atoms); (b) every free feeds the list (free_sector => set_fat(FREE) + free_sectors.push on all Ok paths; likewise mini sectors; free_chain frees each visited sector); (c) validate rebuilds both lists from exactly the FREE cells. "
                        "R-CAP: the branch guarding each extension of the mini-stream chain and of the MiniFAT chain has the chain's physical length (Chain::len / num_sectors) in its condition, not only the logical length that shrinks on release. R-FREEOLD: wherever a stream that already has a chain is moved to a freshly started chain (mini<->regular migration), and before a removed stream's entry goes away, the old chain is freed first on every path.",
         "not_decided": "that file size is constant from the second repetition of any net-zero cycle (values of the free lists over histories); LIFO order; truncation of the file (the code has none)",
     },
     "C16": {
-        "rules": [rules_mode.run, rules_mode.strictlist("C16"), rules_struct.sibflag("C16"), rules_mode.rawfield("C16"), rules_mode.builder("C16"), rules_mode.normapplied("C16"), rules_struct.wholetable("C16")],
+        "rules": [rules_mode.run, rules_mode.strictlist("C16"), rules_struct.sibflag("C16"), rules_mode.rawfield("C16"), rules_mode.builder("C16"), rules_mode.normapplied("C16"), rules_struct.wholetable("C16"), rules_struct.repairfirst("C16")],
         "explanation": "R-MODE over all is_strict() tests (19 call sites): S - the region of the CFG dominated by the strict edge of each mode test contains no store, no mutating call and no Ok return, only refusals of kind InvalidData; "
                        "P/N - the region dominated by the permissive edge is either a listed normaliser that only pops/truncates its listed vector (DIFAT zero-stripping, FAT tail stripping, MiniFAT truncation) or a canonicalising assignment nested inside a documented deviation test; no refusal is made only in permissive mode. "
                        "Deviation inventory: each of the 18 documented deviations is located (regexes over guard atoms) as a refusal with is_strict() on its path (or, for the zero-padded FAT, an unconditional refusal pre-empted by the permissive normaliser).",
@@ -293,6 +293,21 @@ _ADDED9 = {
     "C17": " R-TSIDENT: Timestamp::read_from returns Timestamp(word read) on every Ok path, Timestamp::write_to writes the word held.",
 }
 for _pid, _txt in _ADDED9.items():
+    PROPS[_pid]["explanation"] = PROPS[_pid]["explanation"] + _txt
+
+
+_ADDED10 = {
+    "C02": " R-OWN also runs for this property (a sector claimed outside the allocation protocol is handed to two chains, and the image no longer reopens). R-DIFATCAP: wherever a DIFAT index beyond the header's 109 entries is split into (DIFAT sector, slot), the divisor evaluates to 127 / 1023 entries per 512 / 4096-byte sector - the last word of a DIFAT sector is its link.",
+    "C03": " R-DIFATCAP (see C02). R-LINKEND: the FAT / MiniFAT cell that receives the link to a newly allocated sector was found to hold END_OF_CHAIN in the same function, or every caller passes the last id of the chain's own list, read at the call.",
+    "C05": " R-NOCHILD: every Ok return of DirEntry::read_from for a stream lies behind `child == NO_STREAM`, in every validation mode (the lookups read .child of whatever entry a path component resolved to). R-TERM: a COUNTER certificate is not accepted when its bound is a count the file states (a header word, a freshly read number) without a min: such a count bounds nothing by the size of the input. Overflow checks and negations that no specific pattern discharges are tried with a signed interval evaluation over all integer widths (intervals.py), whose every unknown falls back to the range of the value's type.",
+    "C09": " R-UNIT, order key: names of equal length are not ordered by comparing their chars (scalar values) - MS-CFB orders by upper-cased UTF-16 code units, and a surrogate pair sorts before U+E000..U+FFFF (defect D22, repaired). R-FOLD, ASCII clause: an ASCII-only fold is applied to a char in the folding functions only behind a test that the char is ASCII.",
+    "C11": " R-LENBOUND: every Ok return of DirEntry::read_from for a Stream or Root entry lies behind a comparison bounding the stored length by MAX_REGULAR_SECTOR x sector length (invariant I-LENBOUND, on which the position arithmetic of a handle rests; defect D14, repaired). R-NOCHILD (see C05). The audited entry that discharged the `entry is a stream` assertions of the stream layer as a caller contract was wrong (a handle can outlive its stream: defect D23, repaired) and is gone.",
+    "C13": " R-PREDWALK: the predecessor search of remove_dir_entry also stops at the removed entry's own right link - a removal repeated after a failed attempt must not walk into the subtree the first attempt already moved (defect D21b: disk-first order, R-WTORDER, is necessary but was not sufficient).",
+    "C15": " R-LINKEND (see C03): a chain extended from a sector that is not its last one orphans everything behind it, once per call.",
+    "C16": " R-REPAIRFIRST: in Allocator::validate no store that repairs a FAT / DIFAT sector marker is reachable after the pointee bookkeeping has begun (the link checks must judge the repaired table, or a tolerated file is refused).",
+    "C17": " Narrowing casts and overflow checks of the conversions are also tried with the signed interval evaluation (a conversion rewritten with 128-bit arithmetic is discharged by arithmetic; a truncating `(as_nanos() / 100) as u64` is still reported).",
+}
+for _pid, _txt in _ADDED10.items():
     PROPS[_pid]["explanation"] = PROPS[_pid]["explanation"] + _txt
 
 
